@@ -91,8 +91,10 @@ def run_script(script: dict[str, Any]) -> dict[str, Any]:
         cancels: dict[int, int] = {}
         audits: list[dict[str, Any]] = []
 
-        def start_call(i: int) -> None:
+        def start_call(i: int, eager: bool = False) -> None:
             spec = calls[i]
+            if recs[i] is not None:
+                return
 
             def do_append(msg: Any, i: int = i) -> bool:
                 pred_log[i].append((sim.next_seq(), "append", msg.key))
@@ -104,7 +106,9 @@ def run_script(script: dict[str, Any]) -> dict[str, Any]:
 
             types = tuple(getattr(pb, TYPES[t]) for t in spec["types"])
             req = getattr(pb, REQUESTS[i])()
-            recs[i] = sim.call(f"call{i}", lambda: conn.send_messages_await_response_complex((req,), do_append, do_stop, types, spec["timeout"]))
+            recs[i] = sim.call(f"call{i}", lambda: conn.send_messages_await_response_complex((req,), do_append, do_stop, types, spec["timeout"]), eager=eager)
+            if eager:
+                t_call[i] = sim.clock
 
         subs: list[Any] = []
         sub_log: list[tuple[int, int, int]] = []
@@ -114,6 +118,19 @@ def run_script(script: dict[str, Any]) -> dict[str, Any]:
             k = len(subs)
             if v0.closed_seq is None:
                 subs.append(conn.add_message_callback(lambda m, k=k: sub_log.append((sim.next_seq(), k, m.key)), (getattr(pb, TYPES[ty]),)))
+
+        def subscribe_then_call(ty: int, j: int) -> None:
+            # a subscriber that reacts to the first message of that type by starting call j AT ONCE (eager task: the request is written and the
+            # call registered from inside the callback, while the connection is still dispatching that very message)
+            k = len(subs)
+
+            def cb(m: Any) -> None:
+                sub_log.append((sim.next_seq(), k, m.key))
+                if v0.closed_seq is None:
+                    start_call(j, eager=True)
+
+            if v0.closed_seq is None:
+                subs.append(conn.add_message_callback(cb, (getattr(pb, TYPES[ty]),)))
 
         def unsubscribe(k: int) -> None:
             if k < len(subs):
@@ -161,6 +178,8 @@ def run_script(script: dict[str, Any]) -> dict[str, Any]:
             elif kind == "sub":
                 # a passive subscriber on one of the response types (another part of the application listening to the same messages)
                 sim.at(t, functools.partial(subscribe, ev[2]))
+            elif kind == "subcall":
+                sim.at(t, functools.partial(subscribe_then_call, ev[2], ev[3]))
             elif kind == "unsub":
                 # its remove function is called -- possibly for the second or third time (clean-up paths commonly do): a repeated removal
                 # has no effect on anything else registered for that type
@@ -232,6 +251,8 @@ def run_script(script: dict[str, Any]) -> dict[str, Any]:
             "closed_seq": v.closed_seq, "closed_t": v.closed_t, "fatals": v.fatals, "harness_errors": list(sim.harness_errors),
             "final_timers": [x for x in sim.live_timers() if x == "handle_timeout"], "trace": sim.trace(120),
             "t_call": t_call,
+            "closed_inside_dispatch_of": next((x[0] for a, b in sim.packet_spans if v.closed_seq is not None and a < v.closed_seq < b
+                                               for x in arrivals if a <= x[0] < v.closed_seq), None),
         }
         if v.closed_seq is None:
             d = sim.call("bye", lambda: cli.disconnect(force=True))
@@ -239,8 +260,8 @@ def run_script(script: dict[str, Any]) -> dict[str, Any]:
         return out
 
 
-def model_call(spec: dict[str, Any], i: int, rec: Any, o: dict[str, Any]) -> dict[str, Any]:
-    """Sequential model for one call over the recorded arrival history."""
+def model_call(spec: dict[str, Any], i: int, rec: Any, o: dict[str, Any], skip: int | None = None) -> dict[str, Any]:
+    """Sequential model for one call over the recorded arrival history (skip: sequence number of an arrival to leave out)."""
     names = {TYPES[t] for t in spec["types"]}
     deadline = rec.t_call + max(0.0, spec["timeout"])     # a zero or negative timeout expires in the instant of the call
     if o["closed_seq"] is not None and o["closed_seq"] < rec.seq_call:
@@ -248,7 +269,7 @@ def model_call(spec: dict[str, Any], i: int, rec: Any, o: dict[str, Any]) -> dic
     result: list[int] = []
     ambiguous = False
     for seq, t, name, key in o["arrivals"]:
-        if seq < rec.seq_call or name not in names:
+        if seq < rec.seq_call or name not in names or seq == skip:
             continue
         if o["closed_seq"] is not None and seq > o["closed_seq"]:
             break
@@ -263,6 +284,50 @@ def model_call(spec: dict[str, Any], i: int, rec: Any, o: dict[str, Any]) -> dic
     if o["closed_t"] is not None and o["closed_t"] <= deadline + 1e-9 and (o["closed_seq"] or 0) > rec.seq_call:
         return {"kind": "closed", "t": o["closed_t"], "ambiguous": abs(o["closed_t"] - deadline) <= 1e-9}
     return {"kind": "timeout", "t": deadline, "ambiguous": ambiguous}
+
+
+def judge_call(calls: list[dict[str, Any]], i: int, rec: Any, m: dict[str, Any], o: dict[str, Any]) -> list[tuple[str, str]]:
+    from aioesphomeapi.core import APIConnectionError, TimeoutAPIError
+
+    out: list[tuple[str, str]] = []
+    if rec.outcome == "ok":
+        got = [msg.key for msg in rec.result]
+        if m["kind"] != "result":
+            if not (m["ambiguous"]):
+                out.append((f"C11/result-instead-of-{m['kind']}", f"call{i} returned {got} but the model says {m['kind']} at t={m['t']:.6f}"))
+        elif got != m["keys"]:
+            extra = [k for k in got if k not in m["keys"]]
+            missing = [k for k in m["keys"] if k not in got]
+            key = "missed-response" if missing and not extra else "foreign-response" if extra and not missing else "wrong-responses"
+            out.append((f"C11/{key}", f"call{i} returned keys {[hex(k) for k in got]}, model {[hex(k) for k in m['keys']]}"))
+        elif abs(rec.t_ret - m["t"]) > 1e-6:
+            out.append(("C11/completion-instant", f"call{i} completed at {rec.t_ret:.6f}, deciding arrival at {m['t']:.6f}"))
+    elif rec.outcome == "raised":
+        e = rec.exc
+        if isinstance(e, TimeoutAPIError):
+            if m["kind"] != "timeout" and not m["ambiguous"] and not m.get("alt_timeout"):
+                out.append((f"C11/timeout-instead-of-{m['kind']}", f"call{i} timed out but the model says {m['kind']}"))
+            elif abs(rec.t_ret - (rec.t_call + max(0.0, calls[i]["timeout"]))) > 1e-6:
+                out.append(("C11/timeout-instant", f"call{i} timed out at +{rec.t_ret - rec.t_call:.6f}s, timeout {calls[i]['timeout']}s"))
+        elif isinstance(e, APIConnectionError):
+            if m["kind"] != "closed":
+                if not m["ambiguous"]:
+                    out.append((f"C11/error-instead-of-{m['kind']}", f"call{i} raised {e!r} but the model says {m['kind']}"))
+            else:
+                first = None
+                for fs, ft, fe in ([] if m.get("refused") else o["fatals"]):
+                    if o["closed_seq"] is not None and fs < o["closed_seq"]:
+                        first = fe
+                        break
+                if first is not None and isinstance(first, APIConnectionError) and e is not first:
+                    out.append(("C11/close-error-not-first-cause", f"call{i} raised {e!r}, connection's first fatal {first!r}"))
+                if abs(rec.t_ret - m["t"]) > 1e-6:
+                    out.append(("C11/close-instant", f"call{i} failed at {rec.t_ret:.6f}, connection closed at {m['t']:.6f}"))
+        else:
+            out.append((f"C11/raw-exception/{type(e).__name__}", f"call{i} raised {e!r}"))
+    elif rec.outcome == "cancelled":
+        out.append(("C11/unrequested-cancel", f"call{i} ended cancelled without a caller cancel"))
+    return out
 
 
 def judge(script: dict[str, Any], o: dict[str, Any]) -> list[tuple[str, str]]:
@@ -282,44 +347,14 @@ def judge(script: dict[str, Any], o: dict[str, Any]) -> list[tuple[str, str]]:
             if rec.outcome != "cancelled":
                 out.append(("C11/cancel-not-propagated", f"call{i} was cancelled by the caller before it returned but ended {rec.outcome} ({rec.exc!r})"))
         else:
-            m = model_call(calls[i], i, rec, o)
-            if rec.outcome == "ok":
-                got = [msg.key for msg in rec.result]
-                if m["kind"] != "result":
-                    if not (m["ambiguous"]):
-                        out.append((f"C11/result-instead-of-{m['kind']}", f"call{i} returned {got} but the model says {m['kind']} at t={m['t']:.6f}"))
-                elif got != m["keys"]:
-                    extra = [k for k in got if k not in m["keys"]]
-                    missing = [k for k in m["keys"] if k not in got]
-                    key = "missed-response" if missing and not extra else "foreign-response" if extra and not missing else "wrong-responses"
-                    out.append((f"C11/{key}", f"call{i} returned keys {[hex(k) for k in got]}, model {[hex(k) for k in m['keys']]}"))
-                elif abs(rec.t_ret - m["t"]) > 1e-6:
-                    out.append(("C11/completion-instant", f"call{i} completed at {rec.t_ret:.6f}, deciding arrival at {m['t']:.6f}"))
-            elif rec.outcome == "raised":
-                e = rec.exc
-                if isinstance(e, TimeoutAPIError):
-                    if m["kind"] != "timeout" and not m["ambiguous"] and not m.get("alt_timeout"):
-                        out.append((f"C11/timeout-instead-of-{m['kind']}", f"call{i} timed out but the model says {m['kind']}"))
-                    elif abs(rec.t_ret - (rec.t_call + max(0.0, calls[i]["timeout"]))) > 1e-6:
-                        out.append(("C11/timeout-instant", f"call{i} timed out at +{rec.t_ret - rec.t_call:.6f}s, timeout {calls[i]['timeout']}s"))
-                elif isinstance(e, APIConnectionError):
-                    if m["kind"] != "closed":
-                        if not m["ambiguous"]:
-                            out.append((f"C11/error-instead-of-{m['kind']}", f"call{i} raised {e!r} but the model says {m['kind']}"))
-                    else:
-                        first = None
-                        for fs, ft, fe in ([] if m.get("refused") else o["fatals"]):
-                            if o["closed_seq"] is not None and fs < o["closed_seq"]:
-                                first = fe
-                                break
-                        if first is not None and isinstance(first, APIConnectionError) and e is not first:
-                            out.append(("C11/close-error-not-first-cause", f"call{i} raised {e!r}, connection's first fatal {first!r}"))
-                        if abs(rec.t_ret - m["t"]) > 1e-6:
-                            out.append(("C11/close-instant", f"call{i} failed at {rec.t_ret:.6f}, connection closed at {m['t']:.6f}"))
-                else:
-                    out.append((f"C11/raw-exception/{type(e).__name__}", f"call{i} raised {e!r}"))
-            elif rec.outcome == "cancelled":
-                out.append(("C11/unrequested-cancel", f"call{i} ended cancelled without a caller cancel"))
+            # the connection was closed from INSIDE the dispatch of an arrival (a callback for that message wrote a request and the write failed, or
+            # called force_disconnect): whether the handlers that had not run yet still get that message is the library's choice - both readings
+            # of that one arrival are accepted
+            alts = [model_call(calls[i], i, rec, o)]
+            if o.get("closed_inside_dispatch_of") is not None:
+                alts.append(model_call(calls[i], i, rec, o, skip=o["closed_inside_dispatch_of"]))
+            verdicts = [judge_call(calls, i, rec, m, o) for m in alts]
+            out.extend(min(verdicts, key=len))
         # leftovers: predicates after return
         late = [p for p in o["pred_log"][i] if p[0] > rec.seq_ret]
         if late:
@@ -367,7 +402,11 @@ def gen_script(rng: Any, framing: str) -> dict[str, Any]:
         if r < 0.2 and len(started) < ncalls:
             i = min(set(range(ncalls)) - started)
             started.add(i)
-            events.append([gap, "call", i])
+            if rng.random() < 0.35:
+                # started from inside a callback for a type the call itself listens to (or another one), by whichever message of that type comes first
+                events.append([gap, "subcall", rng.choice(calls[i]["types"]) if rng.random() < 0.8 else rng.randrange(3), i])
+            else:
+                events.append([gap, "call", i])
         elif r < 0.8:
             if events[-1][1] == "arrive" and rng.random() < 0.4:
                 gap = "chunk"
@@ -396,7 +435,8 @@ def gen_script(rng: Any, framing: str) -> dict[str, Any]:
 def small_exhaustive() -> Any:
     """All orderings of a small event multiset after call 0 (two calls sharing a type)."""
     base_calls = [{"types": [0, 1], "timeout": 0.5, "instant": []}, {"types": [0], "timeout": 1.0, "instant": [(0, 2, 0)]}]
-    atoms = [["call", 1], ["arrive", 0, 3, 0], ["arrive", 0, 3, 1], ["arrive", 1, 1, 2], ["arrive", 0, 2, 2], ["cancel", 0], ["close", "eof"], ["close", "peer"], ["debug", True]]
+    atoms = [["call", 1], ["arrive", 0, 3, 0], ["arrive", 0, 3, 1], ["arrive", 1, 1, 2], ["arrive", 0, 2, 2], ["cancel", 0], ["close", "eof"], ["close", "peer"], ["debug", True],
+             ["subcall", 0, 1]]
     for k in (3, 4, 5):
         for combo in itertools.permutations(atoms, k):
             for gaps in itertools.product(("0", "ms", "chunk"), repeat=k) if k <= 3 else (itertools.product(("0", "chunk"), repeat=k) if k == 4 else [("0",) * k, ("ms",) * k, ("chunk",) * k]):
